@@ -7,7 +7,7 @@ import vlib
 THEOREMS = ["Slock.C10F." + t for t in (
     "C10F_never_decides_partial C10F_fabricated_codes C10F_not_local_partial C10F_refusal_reason C10F_never_decides_violated "
     "C10F_first_text_command_refused_locally C10F_relay_unchanged C10F_relay_binary_unconditional C10F_forward_unchanged "
-    "C10F_forward_nothing_else C10F_same_outcome C10F_same_outcome_text C10F_one_reply C10F_delivered_spec C10F_one_reply_exactly "
+    "C10F_forward_nothing_else C10F_wills_forwarded_at_close C10F_wills_dropped_without_link C10F_same_outcome C10F_same_outcome_text C10F_one_reply C10F_delivered_spec C10F_one_reply_exactly "
     "C10F_text_unblocked C10F_one_reply_link_loss_violated C10F_one_reply_rerouted_violated C10F_one_reply_early_violated "
     "C10F_late_init_unanswered C10F_init_answer_unattached C10F_role_change C10F_role_change_back C10F_local_exclusive").split()]
 
